@@ -587,7 +587,8 @@ pub fn run_check(check: &dyn Check, tier: Tier, seed: u64) -> i32 {
         for v in &r.violations {
             let sig = v.signature();
             let wild = format!("*|{}", v.locus);
-            if let Some(f) = open.iter().find(|f| f.signature == sig || f.signature == wild) {
+            let wild_locus = format!("{}|*", v.clause);
+            if let Some(f) = open.iter().find(|f| f.signature == sig || f.signature == wild || f.signature == wild_locus) {
                 *known_hits.entry(f.id.clone()).or_insert(0) += 1;
             } else {
                 new_violations.push(v.clone());
